@@ -27,6 +27,10 @@ fn universe(tier: Tier) -> Vec<V> {
         V::Float(0.5),
         V::Float(1.5),
         V::Float(1e308),
+        // distinct floats closer to one another than f64::EPSILON: equality is exact
+        V::Float(1e-300),
+        V::Float(1.0),
+        V::Float(1.0000000000000002),
         V::s(""),
         V::s("a"),
         V::s("A"),
